@@ -65,6 +65,16 @@ def corpus(rng, quick):
         {"StartAt": "F", "States": {"F": {"Type": "Fail", "Error": "E", "Cause": "c"}}},
         {"StartAt": "IP", "States": {"IP": {"Type": "Parallel", "End": True, "Branches": [
             {"StartAt": "X", "States": {"X": {"Type": "Pass", "End": True}}}]}}}]}}}, {}))
+    # an empty Map state that ends a branch: its own event is the one held for the join (C03-F4)
+    out.append(S("par-empty-map-branch", {"StartAt": "P", "States": {"P": {"Type": "Parallel", "End": True, "Branches": [
+        {"StartAt": "A", "States": {"A": T("f1")}},
+        {"StartAt": "M", "States": {"M": {"Type": "Map", "ItemsPath": "$.items", "End": True,
+                                          "Iterator": {"StartAt": "T", "States": {"T": T("g")}}}}}]}}},
+                 {"items": []}, {"g": [("ok",)], "f1": [("ok",)]}, {"f1": 15}))
+    out.append(S("map-of-empty-maps", {"StartAt": "M", "States": {"M": {"Type": "Map", "ItemsPath": "$.items", "MaxConcurrency": 1, "End": True,
+        "Iterator": {"StartAt": "IM", "States": {"IM": {"Type": "Map", "End": True,
+                                                          "Iterator": {"StartAt": "T", "States": {"T": T("g")}}}}}}}},
+                 {"items": [[], [1], []]}, {"g": [("ok",)]}, {"g": 10}))
     # nested fan-out, success
     out.append(S("nested-ok", {"StartAt": "P", "States": {"P": {"Type": "Parallel", "End": True, "Branches": [
         {"StartAt": "M", "States": {"M": {"Type": "Map", "ItemsPath": "$.items", "End": True,
